@@ -2,11 +2,18 @@ package ast
 
 import (
 	"strconv"
+	"sync"
 )
 
 var capture_group_number int = 0
 
+// capture_group_number is shared by every parse: concurrent compilations take turns
+var capture_group_mutex sync.Mutex
+
 func parse(tokens []*Token) ([]AstCommand, error) {
+	capture_group_mutex.Lock()
+	defer capture_group_mutex.Unlock()
+
 	commands := []AstCommand{}
 	capture_group_number = 0
 	verifYield("parse.reset")
